@@ -127,7 +127,7 @@ def exProg : Nat → List Op
   | 0 => [.next, .roc]
   | 1 => [.next]
   | _ => []
-def exSched : List Nat := [0, 1, 1, 1, 1, 1, 1, 0, 1, 0, 0, 0, 0, 0, 0, 0, 0, 0, 0]
+def exSched : List Nat := [0, 1, 1, 1, 1, 1, 1, 1, 0, 1, 0, 0, 0, 0, 0, 0, 0, 0, 0, 0, 0, 0, 0]
 
 example : ((Sys.init (SeqState.newFixed 65535) exProg).run [0, 1, 1, 0]).isNone = true := by decide
 example : ((Sys.init (SeqState.newFixed 65535) exProg).run exSched).map (·.lin) =
